@@ -7,6 +7,66 @@ import MdVerif.Model.Block
 namespace MdVerif.Block
 open Py
 
+/-! ### vocabulary of `Props/C08Block.lean` (the lemmas are in the namespace `MdVerif.Block.Local`) -/
+
+/-- `p` with the children replaced -/
+def withKids (p : Node) (ks : List Node) : Node := { p with children := ks }
+
+/-- `b` begins with a paragraph, a heading or a rule -/
+def startsPHRAux (tab : Nat) : Nat → Str → Bool
+  | 0, _ => false
+  | n + 1, b =>
+    !b.isEmpty && !startsWith b ['\n'] && !startsWith b (spaces tab) && !isBlank b &&
+    match hashSearch b with
+    | some (s, _, _, _) => (b.take s).isEmpty || startsPHRAux tab n (b.take s)
+    | none =>
+      setextMatch b ||
+      match hrSearch b with
+      | some (s, _) => (rstripC '\n' (b.take s)).isEmpty || startsPHRAux tab n (rstripC '\n' (b.take s))
+      | none =>
+        !(listItemMatch tab true false b).isSome && !(listItemMatch tab false true b).isSome &&
+        match quoteSearch b with
+        | some q => startsPHRAux tab n (b.take q)
+        | none => (refSearch b).isNone
+
+def startsPHR (tab : Nat) (b : Str) : Bool := startsPHRAux tab (b.length + 1) b
+
+/-- the blank-line separator -/
+abbrev nn : Str := ['\n', '\n']
+
+/-- what the empty block at the end of a text does to the tree: a trailing code block gets `"\n\n"` appended -/
+def fillCode (p : Node) : Node := (emptyP [] p [] []).1
+
+/-- the non-recursive special case: the block is not empty, not indented, not blank, does not start with a newline,
+    and is a heading at offset 0, a Setext heading, a rule on its first line, or a plain paragraph -/
+def startsPHR0 (tab : Nat) (b : Str) : Bool :=
+  !b.isEmpty && !startsWith b ['\n'] && !startsWith b (spaces tab) && !isBlank b &&
+  match hashSearch b with
+  | some (s, _, _, _) => s == 0
+  | none =>
+    setextMatch b ||
+    match hrSearch b with
+    | some (s, _) => s == 0
+    | none =>
+      !(listItemMatch tab true false b).isSome && !(listItemMatch tab false true b).isSome &&
+      (quoteSearch b).isNone && (refSearch b).isNone
+
+/-- tags of the children -/
+def kidTags (p : Node) : List Str := p.children.map Node.tagStr
+
+/-- text of the `code` in the first child -/
+def firstCodeText (p : Node) : Option Str :=
+  match p.children with
+  | pre :: _ => match pre.children with
+                | code :: _ => code.text
+                | [] => none
+  | [] => none
+
+end MdVerif.Block
+
+namespace MdVerif.Block.Local
+open Py
+
 /-! ### `dispatch` as a choice followed by a run -/
 
 /-- which processor `dispatch` runs -/
@@ -982,25 +1042,6 @@ theorem parseBlocks_frame (tab : Nat) : ∀ f, PBFrame (parseBlocks tab f) := by
 
 /-! ### blocks that begin with a paragraph, a heading or a rule are blind to the siblings -/
 
-/-- `b` begins with a paragraph, a heading or a rule -/
-def startsPHRAux (tab : Nat) : Nat → Str → Bool
-  | 0, _ => false
-  | n + 1, b =>
-    !b.isEmpty && !startsWith b ['\n'] && !startsWith b (spaces tab) && !isBlank b &&
-    match hashSearch b with
-    | some (s, _, _, _) => (b.take s).isEmpty || startsPHRAux tab n (b.take s)
-    | none =>
-      setextMatch b ||
-      match hrSearch b with
-      | some (s, _) => (rstripC '\n' (b.take s)).isEmpty || startsPHRAux tab n (rstripC '\n' (b.take s))
-      | none =>
-        !(listItemMatch tab true false b).isSome && !(listItemMatch tab false true b).isSome &&
-        match quoteSearch b with
-        | some q => startsPHRAux tab n (b.take q)
-        | none => (refSearch b).isNone
-
-def startsPHR (tab : Nat) (b : Str) : Bool := startsPHRAux tab (b.length + 1) b
-
 /-- on a single block that `startsPHRAux`, outside list state, `pb` ignores the children of the parent altogether
     and leaves at least one child -/
 def PBBlind (tab : Nat) (pb : PB) : Prop :=
@@ -1133,9 +1174,6 @@ theorem parseBlocks_blind (tab : Nat) : ∀ f n st refs p cs b rest, isstate st 
 
 /-! ### composition -/
 
-/-- `p` with the children replaced -/
-def withKids (p : Node) (ks : List Node) : Node := { p with children := ks }
-
 theorem pre_withKids (cs p ks) : pre cs (withKids p ks) = withKids p (cs ++ ks) := rfl
 theorem shell_eq_withKids (p) : shell p = withKids p [] := rfl
 theorem pre_children_shell (p : Node) : pre p.children (shell p) = p := by cases p; simp [pre, shell]
@@ -1177,9 +1215,6 @@ theorem parseBlocks_compose_inv {tab f : Nat} {st : List BState} {refs : Refs} {
     exact ⟨p1, r1, v.1, v.2, h1, rfl, h2.1.symm, h2.2.symm⟩
 
 /-! ### splitting a concatenated text at blank lines -/
-
-/-- the blank-line separator -/
-abbrev nn : Str := ['\n', '\n']
 
 theorem splitAux_ne_nil (sep : Str) : ∀ (s : Str) (k : Nat), splitAux sep k s ≠ [] := by
   intro s
@@ -1376,9 +1411,6 @@ theorem dropLast_append_of_getLast? {α} {l : List α} {a : α} (h : l.getLast? 
   injection h with h
   rw [← h]; exact this
 
-/-- what the empty block at the end of a text does to the tree: a trailing code block gets `"\n\n"` appended -/
-def fillCode (p : Node) : Node := (emptyP [] p [] []).1
-
 theorem emptyP_fst (refs p b rest) : (emptyP refs p b rest).1 = (emptyP [] p b []).1 := by
   simp only [emptyP]
   (repeat' split) <;> rfl
@@ -1535,30 +1567,4 @@ theorem last_block_of_ends_nn (X : Str) :
     (splitS nn (X ++ nn)).getLast? = some [] ∨ (splitS nn (X ++ nn)).getLast? = some ['\n'] :=
   splitAux_nn_last X 0
 
-/-! ### vocabulary of `Props/C08Block.lean` -/
-
-/-- the non-recursive special case: the block is not empty, not indented, not blank, does not start with a newline,
-    and is a heading at offset 0, a Setext heading, a rule on its first line, or a plain paragraph -/
-def startsPHR0 (tab : Nat) (b : Str) : Bool :=
-  !b.isEmpty && !startsWith b ['\n'] && !startsWith b (spaces tab) && !isBlank b &&
-  match hashSearch b with
-  | some (s, _, _, _) => s == 0
-  | none =>
-    setextMatch b ||
-    match hrSearch b with
-    | some (s, _) => s == 0
-    | none =>
-      !(listItemMatch tab true false b).isSome && !(listItemMatch tab false true b).isSome &&
-      (quoteSearch b).isNone && (refSearch b).isNone
-
-/-- tags of the children -/
-def kidTags (p : Node) : List Str := p.children.map Node.tagStr
-
-/-- text of the `code` in the first child -/
-def firstCodeText (p : Node) : Option Str :=
-  match p.children with
-  | pre :: _ => match pre.children with
-                | code :: _ => code.text
-                | [] => none
-  | [] => none
-
+end MdVerif.Block.Local
